@@ -467,7 +467,11 @@ class Macro(Composite, StaticNode, ScrapesIO, ABC):
 
         # Re-forge value links
         for inp, (child, child_inp) in input_links:
-            self.inputs[inp].value_receiver = self.children[child].inputs[child_inp]
+            # The linked values are part of the restored state already. Do not send them
+            # again through the setter: the receiving child may be marked as running
+            # (e.g. the state is a checkpoint written from inside it) and then refuses
+            # new input values -- which would make the whole graph impossible to load
+            self.inputs[inp]._value_receiver = self.children[child].inputs[child_inp]
 
         for (child, child_out), out in output_links:
             self.children[child].outputs[child_out].value_receiver = self.outputs[out]
